@@ -109,6 +109,66 @@ def rule_lexer(ctx):
                        c.lineno)
     ctx.floor(R, n_alt, 6)
     _lexer_slots(ctx, R, tree, rel)
+    _lexer_cache_key(ctx, R, tree, rel)
+
+
+def _lexer_cache_key(ctx, R, tree, rel):
+    """lexers are shared between environments through a cache: the key must contain every environment attribute that the Lexer
+    constructor (and the rule compiler it calls) reads, or an environment gets a lexer built for other settings"""
+    fns = {n.name: n for n in ast.walk(tree) if isinstance(n, ast.FunctionDef)}
+    gl = fns.get("get_lexer")
+    lexer_cls = next((n for n in tree.body if isinstance(n, ast.ClassDef) and n.name == "Lexer"), None)
+    if gl is None or lexer_cls is None:
+        raise AnalysisError("anchor missing: get_lexer / Lexer in lexer.py")
+    env_param = gl.args.args[0].arg
+    init = next((n for n in lexer_cls.body if isinstance(n, ast.FunctionDef) and n.name == "__init__"), None)
+    if init is None:
+        raise AnalysisError("anchor missing: Lexer.__init__")
+    iparam = init.args.args[1].arg
+
+    def env_reads(fn, pname, depth=0):
+        out = set()
+        for n in ast.walk(fn):
+            if isinstance(n, ast.Attribute) and isinstance(n.value, ast.Name) and n.value.id == pname:
+                out.add(n.attr)
+            if isinstance(n, ast.Call) and isinstance(n.func, ast.Name) and n.func.id in fns and depth < 2:
+                for i, a in enumerate(n.args):
+                    if isinstance(a, ast.Name) and a.id == pname and i < len(fns[n.func.id].args.args):
+                        out |= env_reads(fns[n.func.id], fns[n.func.id].args.args[i].arg, depth + 1)
+        return out
+    reads = env_reads(init, iparam)
+    # the key: a tuple of environment attributes, or getattr over a constant tuple of names
+    key_attrs = set()
+    consts = {t.id: n.value for n in tree.body if isinstance(n, ast.Assign) and isinstance(n.value, (ast.Tuple, ast.List)) for t in n.targets if isinstance(t, ast.Name)}
+    key_node = None
+    for n in ast.walk(gl):
+        if isinstance(n, ast.Assign) and isinstance(n.targets[0], ast.Name) and any(
+                isinstance(c, ast.Call) and isinstance(c.func, ast.Attribute) and c.func.attr in ("get", "setdefault") and c.args and ast.unparse(c.args[0]) == n.targets[0].id
+                for c in ast.walk(gl)):
+            key_node = n.value
+    if key_node is None:
+        raise AnalysisError("anchor missing: cache key of get_lexer")
+    for n in ast.walk(key_node):
+        if isinstance(n, ast.Attribute) and isinstance(n.value, ast.Name) and n.value.id == env_param:
+            key_attrs.add(n.attr)
+        if isinstance(n, ast.Call) and isinstance(n.func, ast.Name) and n.func.id == "getattr" and len(n.args) >= 2 and ast.unparse(n.args[0]) == env_param:
+            a1 = n.args[1]
+            if isinstance(a1, ast.Constant):
+                key_attrs.add(a1.value)
+            elif isinstance(a1, ast.Name):
+                # name iterates a constant tuple (comprehension / generator)
+                for comp in ast.walk(key_node):
+                    if isinstance(comp, ast.comprehension) and isinstance(comp.target, ast.Name) and comp.target.id == a1.id:
+                        it = comp.iter
+                        it = consts.get(it.id) if isinstance(it, ast.Name) else it
+                        if isinstance(it, (ast.Tuple, ast.List)):
+                            key_attrs |= {e.value for e in it.elts if isinstance(e, ast.Constant)}
+    ctx.unit("lexer_environment_reads", sorted(reads))
+    missing = sorted(reads - key_attrs)
+    ok = bool(reads) and not missing
+    ctx.ob(R, rel, f"get_lexer :: the cache key covers the {len(reads)} environment attributes the Lexer is built from", ok,
+           "" if ok else f"{missing} shape the lexer but are not part of the key: a second environment that differs only there is handed the first one's lexer "
+           "(ordinary templates are then lexed differently from stock Jinja2)", gl.lineno)
 
 
 def _lexer_slots(ctx, R, tree, rel):
@@ -217,10 +277,17 @@ def rule_parser(ctx):
     calls = [c for c in ast.walk(sub) if isinstance(c, ast.Call) and isinstance(c.func, ast.Name) and c.func.id == "autoindent"]
     if not calls:
         raise AnalysisError("anchor missing: autoindent() calls in subparse")
+    # the marker test: `token.value.endswith('*')`, possibly wrapped in a local predicate function
+    marker_fns = {f_.name for f_ in ast.walk(sub) if isinstance(f_, ast.FunctionDef) and f_ is not sub and len(f_.args.args) == 1 and any(
+        isinstance(r, ast.Return) and r.value is not None and f"{f_.args.args[0].arg}.value.endswith('*')" in ast.unparse(r.value) for r in ast.walk(f_))}
+
+    def is_marker(e):
+        return e == "token.value.endswith('*')" or any(e == f"{mf}(token)" for mf in marker_fns)
+
     for c in calls:
         g = pyfront.guards_of(sub, c) or ()
         terms = pyfront.guard_terms(g)
-        ok = ("token.value.endswith('*')", True) in terms
+        ok = any(is_marker(e) and pol for e, pol in terms)
         ctx.ob(R, rel, f"subparse :: autoindent() call at `{ast.unparse(pyfront.enclosing_stmt(c, pyfront.parent_map(sub)))[:60]}`", ok,
                "" if ok else f"autoindent applied under {terms}: unmarked constructs are wrapped in lineprefix", c.lineno)
     # lineprefix nodes only inside autoindent
@@ -243,13 +310,16 @@ def rule_parser(ctx):
             if t in ("body.extend(rv)", "body.append(rv)", "add_data(rv)"):
                 src_terms.append((t, pyfront.guard_terms(g)))
     have = {t for t, _ in src_terms}
-    ok = {"body.extend(rv)", "body.append(rv)", "add_data(rv)"} <= have
+    ok = "add_data(rv)" in have and bool({"body.extend(rv)", "body.append(rv)"} & have)
     ctx.ob(R, rel, "subparse :: unmarked statements/expressions are added unchanged", ok, f"found {sorted(have)}", sub.lineno)
     for t, terms in src_terms:
         if t.startswith("body."):
-            ok = ("token.value.endswith('*')", False) in terms or ("token.value and token.value.endswith('*')", False) in terms or \
-                any("endswith('*')" in e and not p for e, p in terms)
+            ok = any((is_marker(e) or "endswith('*')" in e) and not p for e, p in terms)
             ctx.ob(R, rel, f"subparse :: `{t}` is the not-marked branch", ok, f"guards {terms}", sub.lineno)
+            if t == "body.append(rv)":
+                # a statement that parses to a list of nodes is spliced, not nested: append only under `not isinstance(rv, list)`
+                ok = any(e == "isinstance(rv, list)" and not p for e, p in terms)
+                ctx.ob(R, rel, "subparse :: a single node is appended, a node list is spliced", ok, f"guards {terms}", sub.lineno)
     # the filter implementation exists and only prefixes non-empty lines... (shape: uses the given prefix only)
     ftree, fpath = _parse_module(ctx, "jinja/jinja2/filters.py")
     dl = [n for n in ast.walk(ftree) if isinstance(n, ast.FunctionDef) and n.name == "do_lineprefix"]
@@ -291,9 +361,45 @@ def rule_lineprefix(ctx):
     ctx.ob(R, ctx.rel(fpath), "do_lineprefix :: line terminators are preserved", ok,
            "" if ok else f"{lossy[0]} discards the terminators and the lines are re-joined with a fixed newline: "
            "`{{* v }}` with v='a\\nb\\n' renders 'a\\n  b' (trailing newline lost), v='a\\r\\nb' loses the CR", f.lineno)
-    # empty lines are not prefixed (documented)
-    src = ast.unparse(f)
-    ok = "if line else line" in src or "if line" in src
+    # a Markup input gives a Markup result (stock filters keep safe strings safe): the string that joins the lines is Markup
+    # whenever the input is - str.join of Markup pieces returns a plain str, which autoescaping then escapes a second time
+    sparam = f.args.args[0].arg
+    markup_names = set()
+    for st, gd in pyfront.walk_guarded(f.body, ()):
+        if isinstance(st, ast.Assign) and any(e == f"isinstance({sparam}, Markup)" and pol for e, pol in pyfront.guard_terms(gd)):
+            tg, vals = st.targets[0], st.value
+            pairs = list(zip(tg.elts, vals.elts)) if isinstance(tg, ast.Tuple) and isinstance(vals, ast.Tuple) else [(tg, vals)]
+            for t_, v_ in pairs:
+                if isinstance(t_, ast.Name) and isinstance(v_, ast.Call) and ast.unparse(v_.func) == "Markup":
+                    markup_names.add(t_.id)
+    for c in joins:
+        recv = c.func.value
+        ok = (isinstance(recv, ast.Name) and recv.id in markup_names) or (isinstance(recv, ast.Call) and ast.unparse(recv.func) in ("Markup", f"type({sparam})"))
+        ctx.ob(R, ctx.rel(fpath), "do_lineprefix :: a safe (Markup) value stays safe: the joining newline is Markup when the input is", ok,
+               "" if ok else f"lines are joined with `{ast.unparse(recv)}`: for a Markup input the result is a plain str, and `{{{{* macro() }}}}` in an autoescaped "
+               "template is escaped twice", c.lineno)
+    # empty lines are not prefixed (documented): every `prefix + <line>` is evaluated only where the line is non-empty
+    pparam = f.args.args[1].arg
+    pm = pyfront.parent_map(f)
+    adds = [n for n in ast.walk(f) if isinstance(n, ast.BinOp) and isinstance(n.op, ast.Add) and isinstance(n.left, ast.Name) and n.left.id == pparam and isinstance(n.right, ast.Name)]
+    ok = bool(adds)
+    for a in adds:
+        line = a.right.id
+        par = pm.get(id(a))
+        in_ifexp = isinstance(par, ast.IfExp) and par.body is a and ast.unparse(par.test) == line and ast.unparse(par.orelse) == line
+        # ... or inside a local helper whose earlier branch returned the empty line unchanged
+        encl = None
+        cur = a
+        while id(cur) in pm:
+            cur = pm[id(cur)]
+            if isinstance(cur, ast.FunctionDef):
+                encl = cur
+                break
+        guarded = False
+        if encl is not None:
+            terms = pyfront.guard_terms(pyfront.guards_of(encl, a) or ())
+            guarded = any((e == line and pol) or (e == f"not {line}" and not pol) or (e == f"len({line}) == 0" and not pol) for e, pol in terms)
+        ok = ok and (in_ifexp or guarded)
     ctx.ob(R, ctx.rel(fpath), "do_lineprefix :: empty lines are left without prefix", ok, "", f.lineno)
 
 
